@@ -661,6 +661,35 @@ def s6(ck: Check) -> None:
                 ck.ob("S6", fm, fm.f.stmt_of(n), ok, "sub-diagram over a regulator-closed variable set" if ok else
                       f"a sub-diagram is built over `{text(arg) if arg is not None else '?'}`, which is not known to be closed under "
                       f"regulators ({why}): its dynamics would not be independent of the rest of the network")
+                # ... and it is the diagram of the component *as percolated to that node*: kept in a table or attribute it
+                # would be reused for another node, where the component's update functions (percolated with other values of
+                # the upstream variables) and hence its trap spaces differ
+                node_a = call_arg(n, 1, "node_id")
+                st = fm.f.stmt_of(n)
+                up = fm.f.parents.get(n)
+                kept = None
+                if isinstance(st, ast.Assign) and st.value is n and isinstance(st.targets[0], ast.Subscript):
+                    kept = (text(st.targets[0].value), st.targets[0].slice)
+                elif isinstance(st, ast.Assign) and st.value is n and isinstance(st.targets[0], ast.Attribute):
+                    kept = (text(st.targets[0]), None)
+                elif isinstance(up, ast.Call) and isinstance(up.func, ast.Attribute) and up.func.attr == "setdefault" and len(up.args) == 2 \
+                        and up.args[1] is n:
+                    kept = (text(up.func.value), up.args[0])
+                if kept is not None:
+                    key_ = kept[1]
+                    if isinstance(key_, ast.Name):
+                        try:
+                            key_ = fm.deref(key_, cn)
+                        except AnalysisError:
+                            pass
+                    names_in_key = {text(x) for x in ast.walk(key_)} if key_ is not None else set()
+                    okk = node_a is not None and key_ is not None and text(node_a) in names_in_key
+                    ck.ob("S6", fm, st, okk, "stored sub-diagram is keyed by the node it was made for" if okk else
+                          f"the component sub-diagram made for node `{text(node_a) if node_a is not None else 'the root'}` is kept in "
+                          f"`{kept[0]}` under `{text(key_) if key_ is not None else 'an attribute'}`, which does not name the node: the "
+                          f"same variables form a different component in a node that fixes the upstream variables differently, so "
+                          f"a reused sub-diagram contributes spaces that are not trap spaces there (spurious and missing minimal trap "
+                          f"spaces, attractors counted in the wrong nodes)", key="sub-diagram kept across nodes")
 
 
 _BW_SEEN: set = set()
